@@ -159,10 +159,10 @@ impl Monitor for C17 {
         vec![("loops", tier.pick(240_000, 4_800_000)), ("several", tier.pick(60_000, 1_200_000))]
     }
     fn rule(&self) -> &'static str {
-        "case i -> accumulation (i mod 5), input skips (i/5 mod 2), iterations k = 1 + (i/10 mod 4), representation (i/40 mod 3: dense range / spatial range of 'same' convolutions, deconvolutions, 1x1 pools and deconvolution+max-pool pairs / the same followed by a dense layer so that the loop output is flattened), the network's skip accumulation (i/7 mod 5, set although it only concerns skip connections), position of the range (start / middle / end) and its length 1..3 random, every sixth network additionally has an additive skip connection outside the looped range, every fifth has layers outside the range wrapped into feedback blocks; predict is compared with the reference (o_0 = first output of layer b, o_t = f_{a..b}(o_{t-1} [+ input of a]), passed on = combine(o_0; o_1..o_k)) within the running f32 bound; for overwrite without input skips additionally bit-exact against a plain library network in which layers a..b are physically repeated k+1 times with the same weights. several: chains of 4..8 layers with two or three loop connections over pairwise disjoint ranges (every third case: ranges in any arrangement - nested, overlapping, sharing a start - without input skips) (own iteration counts and input-skip flags, one shared accumulation), same oracle; for overwrite without input skips the network with every range physically repeated. Distinct = distinct configuration descriptors."
+        "case i -> accumulation (i mod 5), input skips (i/5 mod 2), iterations k = 1 + (i/10 mod 4), representation (i/40 mod 3: dense range / spatial range of 'same' convolutions, deconvolutions, 1x1 pools and deconvolution+max-pool pairs / the same followed by a dense layer so that the loop output is flattened), the network's skip accumulation (i/7 mod 5, set although it only concerns skip connections), position of the range (start / middle / end) and its length 1..3 random, every sixth network additionally has an additive skip connection outside the looped range or into its first layer, every fifth has layers outside the range wrapped into feedback blocks; predict is compared with the reference (o_0 = first output of layer b, o_t = f_{a..b}(o_{t-1} [+ input of a]), passed on = combine(o_0; o_1..o_k)) within the running f32 bound; for overwrite without input skips additionally bit-exact against a plain library network in which layers a..b are physically repeated k+1 times with the same weights. several: chains of 4..8 layers with two or three loop connections over pairwise disjoint ranges (every third case: ranges in any arrangement - nested, overlapping, sharing a start - without input skips) (own iteration counts and input-skip flags, one shared accumulation), same oracle; for overwrite without input skips the network with every range physically repeated. Distinct = distinct configuration descriptors."
     }
     fn assumptions(&self) -> Vec<&'static str> {
-        vec!["reference loop semantics written from the property statement (refmodel::RNet::forward)", "no skip connection targets a layer inside the loop range in the generated networks"]
+        vec!["reference loop semantics written from the property statement (refmodel::RNet::forward)", "skip connections in the generated networks end outside the looped range or at its first layer (whose accumulated input is then what the loop's input skip adds)"]
     }
     fn run(&self, gen: &str, seed: u64, idx: u64, _tier: Tier) -> Out {
         if gen == "several" {
@@ -212,10 +212,18 @@ impl Monitor for C17 {
         if idx % 6 == 5 {
             let outside: Vec<(usize, usize)> = (0..cfg.layers.len())
                 .flat_map(|s| (s..cfg.layers.len()).map(move |t| (s, t)))
-                .filter(|(s, t)| (*s < a || *s > b) && (*t < a || *t > b) && shapes[*s].0.count() == shapes[*t].0.count() && !matches!(cfg.layers[*s], LCfg::Pool { .. } if false))
+                // (the target may also be the first layer of the looped range: the loop's input
+                // skip then adds the accumulated input that layer processed in its first pass)
+                .filter(|(s, t)| (*s < a || *s > b) && (*t < a || *t > b || (*t == a && *s < a)) && shapes[*s].0.count() == shapes[*t].0.count())
                 .collect();
             if !outside.is_empty() {
-                cfg.skips = vec![*rng.pick(&outside)];
+                // half of these cases prefer a connection INTO the first looped layer
+                let into_start: Vec<(usize, usize)> = outside.iter().cloned().filter(|(_, t)| *t == a).collect();
+                let pick = if !into_start.is_empty() && rng.bool() { *rng.pick(&into_start) } else { *rng.pick(&outside) };
+                if pick.1 == a {
+                    out.count("networks_with_a_skip_connection_into_the_first_looped_layer", 1);
+                }
+                cfg.skips = vec![pick];
                 cfg.skipacc = Acc::Add;
                 out.count("networks_with_a_skip_connection_outside_the_loop", 1);
             }
